@@ -215,3 +215,80 @@ func inlineBool(cond ssa.Value, assign map[string]bool, atomize Atomizer, depth 
 	}
 	return false, false
 }
+
+// enumPaths enumerates the acyclic entry→exit paths of fn (each back edge at most once), up to limit.
+// Each path is delivered with the instructions in order. Returns false if the limit was hit.
+func enumPaths(fn *ssa.Function, limit int, visit func(path []*ssa.BasicBlock)) bool {
+	n := 0
+	var cur []*ssa.BasicBlock
+	onPath := map[*ssa.BasicBlock]int{}
+	ok := true
+	var dfs func(b *ssa.BasicBlock)
+	dfs = func(b *ssa.BasicBlock) {
+		if !ok {
+			return
+		}
+		if onPath[b] >= 2 {
+			return
+		}
+		onPath[b]++
+		cur = append(cur, b)
+		if len(b.Succs) == 0 {
+			n++
+			if n > limit {
+				ok = false
+			} else {
+				cp := make([]*ssa.BasicBlock, len(cur))
+				copy(cp, cur)
+				visit(cp)
+			}
+		} else {
+			for _, s := range b.Succs {
+				dfs(s)
+			}
+		}
+		cur = cur[:len(cur)-1]
+		onPath[b]--
+	}
+	if len(fn.Blocks) > 0 {
+		dfs(fn.Blocks[0])
+	}
+	return ok
+}
+
+// pathCalls lists the call instructions along a block path.
+func pathCalls(path []*ssa.BasicBlock) []ssa.CallInstruction {
+	var out []ssa.CallInstruction
+	for _, b := range path {
+		for _, in := range b.Instrs {
+			if c, ok := in.(ssa.CallInstruction); ok {
+				out = append(out, c)
+			}
+		}
+	}
+	return out
+}
+
+// condAtomsOf collects the distinct atom names of all branch conditions of fn using namer.
+func condAtomsOf(fn *ssa.Function, namer func(ssa.Value) string) []string {
+	seen := map[string]bool{}
+	var out []string
+	for _, b := range fn.Blocks {
+		if i := ifOf(b); i != nil {
+			c, _ := normCond(i.Cond)
+			if _, ok := constBool(c); ok {
+				continue
+			}
+			if _, isPhi := c.(*ssa.Phi); isPhi {
+				continue
+			}
+			n := namer(c)
+			if !seen[n] {
+				seen[n] = true
+				out = append(out, n)
+			}
+		}
+	}
+	sort.Strings(out)
+	return out
+}
